@@ -1,9 +1,8 @@
-"""Self-test of the C09 check: mutants of /repo HEAD + fixes/C09-F55.patch + fixes/C09-F110.patch in a
-scratch worktree (usage: /venv/bin/python harness/c09_mutants.py [N1 N3 ...])."""
+"""Self-test of the C09 check: mutants of /repo HEAD in a scratch worktree (usage: /venv/bin/python harness/c09_mutants.py [N1 N3 ...])."""
 import subprocess, os, sys, json
 VERIF = os.path.dirname(os.path.dirname(os.path.abspath(__file__)))
 M = os.environ.get('C09_MUT', '/work/repo-p0809-m')
-BASE_PATCHES = [VERIF + '/fixes/C09-F55.patch', VERIF + '/fixes/C09-F110.patch']
+BASE_PATCHES = []          # C09-F55 / C09-F110 are part of /repo since 6daab50 / b2cef49
 B = 'pyglove/core/symbolic/base.py'; L = 'pyglove/core/symbolic/list.py'; D = 'pyglove/core/symbolic/dict.py'
 MUTS = {
  'N1-sort-ascending': (B, """                                  key=lambda x: x[0].sym_path,
@@ -54,6 +53,23 @@ MUTS = {
             pg_typing.MISSING_VALUE, pg_typing.MISSING_VALUE)"""),
  'N13-extended-slice-negative-step-not-reversed': (L, """        replacements.reverse()
         start, step = start + (slice_size - 1) * step, -step""", """        start, step = start + (slice_size - 1) * step, -step"""),
+ 'N15-invalidation-stops-at-unmemoised-ancestor (seeded C09-4)': (B, """    target = self
+    while target is not None:
+      target._set_raw_attr('_sym_puresymbolic', None)       # pylint: disable=protected-access""", """    target = self
+    while target is not None:
+      if (target is not self
+          and target._sym_puresymbolic is None
+          and target._sym_missing_values is None
+          and target._sym_nondefault_values is None):
+        break
+      target._set_raw_attr('_sym_puresymbolic', None)       # pylint: disable=protected-access"""),
+ 'N16-subscription-memoised-on-the-class (seeded C09-5)': ('pyglove/core/symbolic/object.py', """    return self._on_change.__code__ is not Object._on_change.__code__  # pytype: disable=attribute-error""", """    cls = self.__class__
+    subscribes = getattr(cls, '_sym_subscribes_field_updates', None)
+    if subscribes is None:
+      subscribes = (
+          cls._on_change.__code__ is not Object._on_change.__code__)
+      setattr(cls, '_sym_subscribes_field_updates', subscribes)
+    return subscribes"""),
  'N14-pop-notifies-twice': (L, """    with flags.allow_writable_accessors(True):
       del self[index]
     return value""", """    with flags.allow_writable_accessors(True):
